@@ -48,6 +48,8 @@ def run_tlc(module, cfg, workdir=None, workers=None, timeout=1800, env=None, ext
         for f in os.listdir(SPEC):
             if f.endswith((".tla", ".cfg")):
                 shutil.copy(os.path.join(SPEC, f), wd)
+    if not any(str(j).startswith("-Xmx") for j in jvm):
+        jvm = ("-Xmx3g", *jvm)        # many TLC processes run side by side: never let one claim a quarter of the machine
     cmd = ["java", "-XX:+UseParallelGC", "-Xss16m", *jvm, "-cp", TLA_CP, "tlc2.TLC",
            "-workers", str(workers or NCPU), "-metadir", os.path.join(wd, "meta"), "-noGenerateSpecTE",
            "-config", cfg, *extra]
